@@ -79,6 +79,20 @@ fn signatures(basis: &[u8], bs: usize, rtm: &tokio::runtime::Runtime) -> Result<
             diffs.push("async signature differs from Signature::generate".to_string());
         }
     }
+    // the same bytes arriving in short reads (first read short then full ones; every read short; reads of block size ± 1)
+    if legal(bs) && !basis.is_empty() {
+        let pats: [&[usize]; 4] = [&[1000, usize::MAX], &[7, 300, 1], &[bs - 1, bs + 1, bs], &[bs / 2 + 1]];
+        for pat in pats {
+            let s3 = guarded(|| rtm.block_on(AsyncCopiaSync::with_block_size(bs).signature(ShortReader::new(basis, pat))))?.map_err(|_| ())?;
+            if s3 != s0 {
+                diffs.push(format!("async signature of a reader delivering short reads {pat:?} differs from Signature::generate"));
+            }
+            let s4 = guarded(|| CopiaSync::with_block_size(bs).signature(ShortReader::new(basis, pat)))?.map_err(|_| ())?;
+            if s4 != s0 {
+                diffs.push(format!("sync-trait signature of a reader delivering short reads {pat:?} differs from Signature::generate"));
+            }
+        }
+    }
     // the parallel path (> 64 KiB) against a sequential recomputation block by block
     if basis.len() > 64 * 1024 {
         for (i, chunk) in basis.chunks(bs).enumerate() {
@@ -143,6 +157,51 @@ impl std::io::Write for EintrWriter {
 }
 impl tokio::io::AsyncWrite for EintrWriter {
     fn poll_write(mut self: std::pin::Pin<&mut Self>, _: &mut std::task::Context<'_>, b: &[u8]) -> std::task::Poll<std::io::Result<usize>> { std::task::Poll::Ready(self.step(b)) }
+    fn poll_flush(self: std::pin::Pin<&mut Self>, _: &mut std::task::Context<'_>) -> std::task::Poll<std::io::Result<()>> { std::task::Poll::Ready(Ok(())) }
+    fn poll_shutdown(self: std::pin::Pin<&mut Self>, _: &mut std::task::Context<'_>) -> std::task::Poll<std::io::Result<()>> { std::task::Poll::Ready(Ok(())) }
+}
+
+/// A reader that hands out its data in SHORT reads (a pipe, a socket, `ssh cat`): read k returns at most `pat[k % pat.len()]`
+/// bytes. What a signature covers is decided by the block size, never by how the bytes happened to arrive.
+struct ShortReader<'a> { data: &'a [u8], pos: usize, k: usize, pat: &'a [usize] }
+impl<'a> ShortReader<'a> {
+    fn new(data: &'a [u8], pat: &'a [usize]) -> Self { ShortReader { data, pos: 0, k: 0, pat } }
+    fn take(&mut self, room: usize) -> &'a [u8] {
+        let n = room.min(self.pat[self.k % self.pat.len()]).min(self.data.len() - self.pos);
+        self.k += 1;
+        let s = &self.data[self.pos..self.pos + n];
+        self.pos += n;
+        s
+    }
+}
+impl std::io::Read for ShortReader<'_> {
+    fn read(&mut self, b: &mut [u8]) -> std::io::Result<usize> { let s = self.take(b.len()); b[..s.len()].copy_from_slice(s); Ok(s.len()) }
+}
+impl tokio::io::AsyncRead for ShortReader<'_> {
+    fn poll_read(mut self: std::pin::Pin<&mut Self>, _: &mut std::task::Context<'_>, b: &mut tokio::io::ReadBuf<'_>) -> std::task::Poll<std::io::Result<()>> {
+        let s = self.take(b.remaining()); b.put_slice(s); std::task::Poll::Ready(Ok(()))
+    }
+}
+
+/// A sink with limited room (a full disk, a quota): it takes bytes until `room` is used up, then every write fails. Whatever
+/// buffering sits in front of it, success may only be reported for bytes the sink RECEIVED.
+struct FullSink { out: Vec<u8>, room: usize }
+impl FullSink {
+    fn put(&mut self, b: &[u8]) -> std::io::Result<usize> {
+        let n = b.len().min(self.room - self.out.len());
+        if n == 0 && !b.is_empty() {
+            return Err(std::io::Error::new(std::io::ErrorKind::Other, "no space left on device"));
+        }
+        self.out.extend_from_slice(&b[..n]);
+        Ok(n)
+    }
+}
+impl std::io::Write for FullSink {
+    fn write(&mut self, b: &[u8]) -> std::io::Result<usize> { self.put(b) }
+    fn flush(&mut self) -> std::io::Result<()> { Ok(()) }
+}
+impl tokio::io::AsyncWrite for FullSink {
+    fn poll_write(mut self: std::pin::Pin<&mut Self>, _: &mut std::task::Context<'_>, b: &[u8]) -> std::task::Poll<std::io::Result<usize>> { std::task::Poll::Ready(self.put(b)) }
     fn poll_flush(self: std::pin::Pin<&mut Self>, _: &mut std::task::Context<'_>) -> std::task::Poll<std::io::Result<()>> { std::task::Poll::Ready(Ok(())) }
     fn poll_shutdown(self: std::pin::Pin<&mut Self>, _: &mut std::task::Context<'_>) -> std::task::Poll<std::io::Result<()>> { std::task::Poll::Ready(Ok(())) }
 }
@@ -336,6 +395,33 @@ pub fn run_pair(w: &mut Out, p: &Pair, rtm: &tokio::runtime::Runtime, cli: Optio
         Ok((true, o)) if o == p.src => {}
         _ => w.fail(l, "roundtrip-async", &format!("async patch(delta) != source [{key}]")),
     }
+    // the library's file-to-file front end (`AsyncCopiaSync::sync_files`, what `copia sync SRC DST` runs) on the same pair: the
+    // destination ends up as the source, and what it REPORTS as literal data is never more than the engine's greedy delta for these very files (it may be less: identical files are recognised as such) —
+    // a front end that skips a byte-wise common prefix first and scans from there pays up to a block more (seed C16-J)
+    if legal(p.bs) && !p.basis.is_empty() && p.src.len() <= (4 << 20) {
+        let dir = std::path::PathBuf::from(format!("/var/tmp/copia-corr-lib-{}", std::process::id()));
+        let _ = std::fs::create_dir_all(&dir);
+        let (sp, dp) = (dir.join("src"), dir.join("dst"));
+        std::fs::write(&sp, &p.src).ok();
+        std::fs::write(&dp, &p.basis).ok();
+        let (spc, dpc, bs_) = (sp.clone(), dp.clone(), p.bs);
+        let r = crate::util::guarded_timeout(30, move || rt().block_on(AsyncCopiaSync::with_block_size(bs_).sync_files(&spc, &dpc)));
+        w.count("sync-files");
+        match r {
+            Ok(Ok(res)) => {
+                if std::fs::read(&dp).ok().as_deref() != Some(&p.src[..]) {
+                    w.fail(l, "sync-files-wrong-bytes", &format!("sync_files left a destination that is not the source [{key}]"));
+                }
+                if res.bytes_literal > d_sync.bytes_literal() || res.bytes_matched + res.bytes_literal != p.src.len() as u64 {
+                    w.fail(l, "sync-files-more-literals-than-engine", &format!("sync_files reports {} matched / {} literal bytes; the engine's delta for the same files has {} literal bytes of {} [{key}]",
+                        res.bytes_matched, res.bytes_literal, d_sync.bytes_literal(), p.src.len()));
+                }
+            }
+            Ok(Err(e)) => w.fail(l, "sync-files-failed", &format!("sync_files failed: {e} [{key}]")),
+            Err(_) => w.fail(l, "sync-files-panic", &format!("sync_files panicked or hung [{key}]")),
+        }
+        let _ = std::fs::remove_dir_all(&dir);
+    }
     // C16 oracle (reported by `./check C16` only; C01 is about reconstruction, not size)
     let lit = d_sync.bytes_literal();
     if !c16 {
@@ -458,6 +544,23 @@ impl CliCtx {
             if c != Some(0) || std::fs::read(&dst).ok().as_deref() != Some(&p.src[..]) {
                 w.fail(l, "cli-sync", &format!("copia sync (dest mode {mode}) exit {c:?} {e} or wrong bytes [{}]", p.label));
             }
+            if mode == 2 && c == Some(0) {
+                // what the front end REPORTS it sent ("… (N bytes matched, M bytes literal)") against the engine's greedy delta
+                // for this very (basis, source, block size): a front end that sends more literal data than the engine would
+                std::fs::write(&dst, &p.basis).ok();
+                let out = std::process::Command::new(&self.bin).args(["sync", &f("src"), &dst, "-b", &bs]).env("RUST_LOG", "off")
+                    .stderr(std::process::Stdio::null()).output().map(|o| String::from_utf8_lossy(&o.stdout).into_owned()).unwrap_or_default();
+                let num = |tag: &str| -> Option<u64> {
+                    let i = out.find(tag)?;
+                    out[..i].trim_end().rsplit(|ch: char| !ch.is_ascii_digit()).next()?.parse().ok()
+                };
+                if let (Some(m), Some(li)) = (num(" bytes matched"), num(" bytes literal")) {
+                    w.count("cli-sync-reported-sizes");
+                    if li > d_sync.bytes_literal() || m + li != p.src.len() as u64 {
+                        w.fail(l, "cli-sync-more-literals-than-engine", &format!("copia sync reports {m} matched / {li} literal bytes; the engine's delta for the same files has {} literal bytes of {} [{}]", d_sync.bytes_literal(), p.src.len(), p.label));
+                    }
+                }
+            }
         }
         w.count("cli-sync");
     }
@@ -524,6 +627,26 @@ Model queries: `sig` and `delta` (exact op list, literal data compared by length
             let p = Pair { basis, src: sb.concat(), bs, label: format!("same-size-rearrangement/bs{bs}/{v}"), edit: None };
             run_pair(w, &p, &rtm, cli.as_ref(), true, prop == "C16");
             w.count("same-size-rearrangement");
+        }
+    }
+    // BOUNDARY DELETIONS: the tail K[j..B) of a basis block K is deleted, and the next block W starts with the byte the deleted
+    // range started with (W[0] == K[j]). Source and basis then share j + 1 bytes more than a whole number of blocks: the greedy
+    // scan pays j literal bytes and matches W where it stands; a front end that first skips "the common prefix" byte-wise and
+    // scans from there starts one byte INSIDE W and pays almost a block (seed C16-J). Always through `copia sync` too.
+    for bs in [512usize, 2048] {
+        for (v, j) in [1usize, 7, 100, 300].into_iter().enumerate() {
+            let nb = rng.range(3, 7) as usize;
+            let mut blocks: Vec<Vec<u8>> = (0..nb).map(|_| block_of(&mut rng, bs, 4)).collect();
+            let at = rng.below(nb as u64 - 1) as usize;
+            let first = blocks[at][j];
+            blocks[at + 1][0] = first;
+            let basis = blocks.concat();
+            let mut src = blocks[..at].concat();
+            src.extend_from_slice(&blocks[at][..j]);
+            src.extend_from_slice(&blocks[at + 1..].concat());
+            let p = Pair { basis, src, bs, label: format!("boundary-deletion/bs{bs}/{v}"), edit: Some((bs - j) as u64) };
+            run_pair(w, &p, &rtm, cli.as_ref(), true, prop == "C16");
+            w.count("boundary-deletion");
         }
     }
     // COPY OFFSETS beyond 4 GiB: a signature (as read from a .sig file) whose blocks carry large indices — the copy offset
@@ -811,6 +934,33 @@ query = `patch` with full ops; answer = verdict + length and FNV hash of the byt
                     if let Ok((r, o)) = &ga {
                         if r.is_ok() && StrongHash::compute(o).as_bytes() != d.checksum.as_bytes() {
                             w.fail(l, "success-on-wrong-bytes", &format!("async patch into a sink that answers partial writes with EINTR reported success but the sink holds {} bytes that do not hash to the checksum (case {i})", o.len()));
+                        }
+                    }
+                }
+            }
+            // … and sinks that run out of room: at once, after a few bytes, within the last 64 KiB of a larger output
+            for room in [0usize, 10, 90_000] {
+                let (b2c, dc) = (basis2.clone(), d.clone());
+                let gs = guarded(move || {
+                    let mut sw = FullSink { out: Vec::new(), room };
+                    let r = copia::SyncBuilder::new().verify_checksum(true).build().patch(Cursor::new(&b2c), &dc, &mut sw);
+                    (r, sw.out)
+                });
+                if let Ok((r, o)) = &gs {
+                    if r.is_ok() && StrongHash::compute(o).as_bytes() != d.checksum.as_bytes() {
+                        w.fail(l, "success-on-wrong-bytes", &format!("sync patch into a sink with room for {room} bytes reported success but the sink holds {} bytes that do not hash to the checksum (case {i})", o.len()));
+                    }
+                }
+                if async_hangs < 2 {
+                    let (b2c, dc) = (basis2.clone(), d.clone());
+                    let ga = crate::util::guarded_timeout(20, move || {
+                        let mut sw = FullSink { out: Vec::new(), room };
+                        let r = rt().block_on(AsyncCopiaSync::new().patch(Cursor::new(&b2c), &dc, &mut sw));
+                        (r, sw.out)
+                    });
+                    if let Ok((r, o)) = &ga {
+                        if r.is_ok() && StrongHash::compute(o).as_bytes() != d.checksum.as_bytes() {
+                            w.fail(l, "success-on-wrong-bytes", &format!("async patch into a sink with room for {room} bytes reported success but the sink holds {} bytes that do not hash to the checksum (case {i})", o.len()));
                         }
                     }
                 }
